@@ -8,32 +8,36 @@ CORR = ("the hand-written Coq model is executed (extracted OCaml + vm_compute sa
 
 CLAIMED = {
  "C03": dict(
-    category="other",
-    text="FMA: executable Coq model (umul at MaxPrec, then Add, with the zero-addend and alias branches) with no closed FMA theorem "
-         "yet (the Add/Mul theorems of C01 cover its two halves); decided by correspondence: " + CORR + " (x*y+u rounded once, IEEE "
-         "zero-sum sign, all 15 aliasing shapes, comparison with Mul-then-Add). Known finding K3 (product exponent outside int32).",
+    category="proof",
+    text="Coq theorems (Props/C03.v, closed under the global context): for finite operands FMA(x,y,u) is x*y+u as an exact rational "
+         "rounded ONCE under result_spec (precision, mode, IEEE zero-sum sign, accuracy), the zero-addend branch is Mul, and the result "
+         "does not depend on aliasing flags. The model is tied to decimal.go by correspondence: " + CORR + " (all 15 aliasing shapes, "
+         "comparison with Mul-then-Add). Known finding K3 (product exponent outside int32) is excluded by the theorem's hypothesis.",
     design_ref="DESIGN.md section 6 C03",
-    note="Model + correspondence + independent oracle; theorem pending; K3 reported as KNOWN-FINDING.",
-    technique="Coq executable model + model/code correspondence with exact-rational oracle"),
+    note="K3 reported as KNOWN-FINDING; special-value rows of FMA are correspondence-only.",
+    technique="Coq proof (Q-valued rounding spec) + model/code correspondence with exact-rational oracle"),
  "C09": dict(
-    category="other",
-    text="Precision/mode stickiness and operand immutability: in the value-level model every operation writes only its receiver and "
-         "the C01/C04 theorems state the receiver's resulting precision and mode for Add Sub Mul Quo Set SetPrec Neg Abs; the "
-         "program-level theorem over all operations is not closed, so the property is decided by correspondence: " + CORR +
-         " (documented precision/mode table per operation; every non-receiver variable compared with its previous full raw state).",
+    category="proof",
+    text="Coq theorems (Props/C09.v): for EVERY operation of the store model, any variable that is not the receiver is returned "
+         "unchanged in all fields (value, sign, precision, mode, accuracy); the receiver's precision is eff_prec (its own, or the "
+         "largest operand precision when 0) and its mode is unchanged (AddPost/OpPost/SpecialPost conclusions for Add Sub Mul Quo Set "
+         "SetPrec Neg Abs and the setters). The value-level model cannot express writes through shared buffers; that half is tied to "
+         "the code by correspondence: " + CORR + " (every non-receiver variable compared with its previous full raw state after each "
+         "step; documented precision/mode table per operation).",
     design_ref="DESIGN.md section 6 C09",
-    note="Partial proof + exploration by random programs.",
-    technique="Coq per-operation lemmas + model/code correspondence with a documented-attribute table"),
+    note="Sqrt and float setters' attribute rows are correspondence-only.",
+    technique="Coq proof on store model + model/code correspondence with a documented-attribute table"),
  "C10": dict(
-    category="other",
-    text="Aliasing/previous-contents independence: the value-level model computes results from (receiver precision, receiver mode, "
-         "operand values) only, so independence holds in the model by construction; the tie of that model to the code IS the "
-         "property and is decided by correspondence over every aliasing shape (5 binary, 15 FMA, 2 unary) and receiver history "
-         "(longer/shorter/special previous values, capacities, stale words): " + CORR + " plus a group judge comparing the "
-         "implementation's results within each group of equivalent calls.",
+    category="proof",
+    text="Coq theorems (Props/C10.v): Add, Mul and Quo of finite operands give observationally equal results for any two receivers "
+         "with the same precision and mode (previous value, form, sign, exponent, accuracy, mantissa are irrelevant), and the aliasing "
+         "flags are irrelevant. The tie of that alias-free model to the code IS the buffer-level half of the property and is decided "
+         "by correspondence over every aliasing shape (5 binary, 15 FMA, 2 unary) and receiver history (longer/shorter/special "
+         "previous values, capacities, stale words): " + CORR + " plus a group judge comparing the implementation's results within "
+         "each group of equivalent calls.",
     design_ref="DESIGN.md section 6 C10",
-    note="Buffer-level independence (capacity, stale words, in-place word movement in dec.*) is exercised, not proved.",
-    technique="Coq value-level model (alias-free by construction) + exhaustive aliasing-shape correspondence"),
+    note="Buffer-level independence (capacity, stale words, in-place word movement in the dec methods) is exercised, not proved.",
+    technique="Coq proof of receiver independence on value-level model + exhaustive aliasing-shape correspondence"),
  "C18": dict(
     category="other",
     text="Partial by nature: Coq theorems (Props/C18.v) prove for every interleaving of any number of threads and any collector "
@@ -56,14 +60,16 @@ CLAIMED = {
     note="The rounding theorem is stated for Add (the other operations go through the same apply lemma); Sqrt through a Context is not modelled in L5.",
     technique="Coq proof by induction over operation sequences on a state-machine model + correspondence"),
  "C08": dict(
-    category="other",
-    text="Canonical-form invariant WF: proved preserved by round/setExpAndRound/Add/Sub/Mul/Quo/Set/SetPrec/Neg/Abs (the C01/C04 "
-         "theorems all conclude WF of the receiver); the program-level theorem over all modelled operations and the Gob decoder "
-         "is not closed yet, so the property is decided by the correspondence run: " + CORR + ", and the canonical-form predicate is "
-         "evaluated on the implementation's raw mantissa words after every step of random programs (incl. corrupted Gob input).",
+    category="proof",
+    text="Coq theorems (Props/C08.v): the canonical-form invariant WF (leading digit non-zero, words < 10^19, no digit beyond the "
+         "precision, exponent in range, zero/inf carry no mantissa constraints) is preserved by every valid operation and, by induction, "
+         "by every finite program of valid operations from any canonical store, and none of them crashes. valid_op covers Add Mul Quo "
+         "Set SetPrec SetMode Neg Abs and the integer/raw setters; Sub, FMA, SetRat, MantExp-with-out-parameter and Gob decoding are "
+         "not in valid_op yet and are decided by correspondence: " + CORR + ", with the canonical-form predicate evaluated on the "
+         "implementation's raw mantissa words after every step of random programs (incl. corrupted Gob input).",
     design_ref="DESIGN.md section 6 C08",
-    note="Partial proof (per-operation WF conclusions in Props/C01.v, C04.v) + exploration by random programs; no closed program-level theorem.",
-    technique="Coq per-operation invariant lemmas + model/code correspondence on random programs"),
+    note="Program-level theorem for the valid_op subset; remaining operations exploration.",
+    technique="Coq proof by induction over operation sequences + model/code correspondence on random programs"),
  "C11": dict(
     category="proof",
     text="Coq theorems in Props/C11.v over the L4 text models (digit string of the mantissa, round trip for the formats listed "
